@@ -393,11 +393,17 @@ func gasLimitFeeRateRule(p *engine.Prog, r *engine.Report, rule string) {
 	rateOf := func(f *ssa.Function) map[string]bool {
 		out := map[string]bool{}
 		for _, c := range callsTo(f, "blockchain.Blockchain.getTxFee") {
-			a := c.Common().Args
-			if len(a) < 2 {
+			// the fee-rate argument, found by its type (not by position: the helper's signature may grow)
+			var rate ssa.Value
+			for _, a := range c.Common().Args[1:] {
+				if n := engine.NamedOf(a.Type()); n != nil && n.Obj().Name() == "Int" {
+					rate = a
+				}
+			}
+			if rate == nil {
 				continue
 			}
-			for v := range engine.BackSlice(a[1], engine.DefaultSlice) {
+			for v := range engine.BackSlice(rate, engine.DefaultSlice) {
 				if cc, ok := v.(*ssa.Call); ok {
 					if o := engine.CalleeObj(&cc.Call); o != nil && (strings.Contains(o.Name(), "FeePerGas")) {
 						out[o.Name()] = true
@@ -724,8 +730,23 @@ func chargedCostRule(p *engine.Prog, r *engine.Report, rule string) {
 			continue
 		}
 		args := engine.CallArgs(c)
-		if len(args) < 3 || len(f.Params) < 3 || engine.Origin(args[1]) != ssa.Value(f.Params[1]) || engine.Origin(args[2]) != ssa.Value(f.Params[2]) {
+		isParam := func(v ssa.Value) bool {
+			o := engine.Origin(v)
+			for _, prm := range f.Params[1:] {
+				if o == ssa.Value(prm) {
+					return true
+				}
+			}
+			return false
+		}
+		if len(args) < 3 || !isParam(args[1]) || !isParam(args[2]) {
 			ok, why = false, "not computed from the fee rate and transaction it was given"
+		}
+		// the network size comes from the state it was given, not from the node's own
+		for v := range engine.BackSlice(args[0], engine.DefaultSlice) {
+			if _, fld, isF := engine.FieldOf(v); isF && fld == "appState" {
+				ok, why = false, "network size read from the node's own state (chain.appState)"
+			}
 		}
 	}
 	r.Check(ok && n > 0, rule, "getTxCost|the charged cost is fee.CalculateCost(size, feePerGas, tx)", p.Pos(f.Pos()), "actual cost at the block's fee rate", "getTxCost: "+why+": ActivationTx moves balance - cost to the recipient — with the declared maximum (not validated against the balance for a zero-fee type) the difference is negative and the recipient is debited in favour of the signer")
